@@ -1133,16 +1133,18 @@ func (f *frame) intrinsic(key string, cc *ssa.CallCommon, args []Value, n *node,
 		var at types.Type
 		for _, m := range x.P.Pkgs {
 			if m.Pkg.Path() == modPath {
-				at = types.NewArray(types.Typ[types.Uint8], 128)
+				bt := types.Universe.Lookup("byte").Type()
+				at = types.NewArray(bt, 128)
 				if cst, ok := m.Members["bufSize"].(*ssa.NamedConst); ok {
 					n, _ := constant.Int64Val(cst.Value.Value)
-					at = types.NewArray(types.Typ[types.Uint8], n)
+					at = types.NewArray(bt, n)
 				}
 			}
 		}
 		pt := types.NewPointer(at)
 		ref := st.newRef()
-		setElemArr(st, types.Typ[types.Uint8], Flatten(types.Typ[types.Uint8])[0], ref, Fresh("poolbuf", sArrII))
+		bt := types.Universe.Lookup("byte").Type()
+		setElemArr(st, bt, Flatten(bt)[0], ref, Fresh("poolbuf", sArrII))
 		x.note("bufPool.Get modelled as a fresh *[bufSize]byte with arbitrary content")
 		return x.makeInterface(st, Value{T: pt, C: []*Term{ref}}, cc.Signature().Results().At(0).Type()), true
 	case "fmt.Sprintf", "fmt.Sprint":
